@@ -1237,8 +1237,9 @@ class Interp(object):
         if isinstance(o, Obj):
             if name in o.attrs:
                 return True
-            if isinstance(name, str) and self.model is not None and (o.qual is not None or bool(self._classes_named(o.cls))) and self.member(o, name) is not _MISSING:
-                return True
+            if isinstance(name, str) and self.model is not None and (o.qual is not None or bool(self._classes_named(o.cls))):
+                # an instance of a repository class has its instance attributes (known) and the members of its class: nothing else
+                return self.member(o, name) is not _MISSING
             fields = getattr(getattr(ast, o.cls, None), '_fields', None)
             if fields is not None:
                 return name in fields
